@@ -73,6 +73,12 @@ type hop19 struct {
 	// BodyName: the "name" member of the JSON body of PUT /users/{id} and PUT /shortcuts/{id}
 	// when it is to differ from the URL (nil = same as the URL; "<absent>" = no name member)
 	BodyName *string `json:"body_name,omitempty"`
+	// PUT /services/{id} with an EntitiesDescriptor aggregate: its top-level entities in document
+	// order (IsAgg), and the entities of a nested EntitiesDescriptor placed first (not searched by
+	// getSPMetadata).  MD is then the entity the unchanged code documents: the first SP entity (nil: none).
+	IsAgg  bool     `json:"aggregate,omitempty"`
+	Agg    []aggEnt `json:"entities,omitempty"`
+	Nested []aggEnt `json:"nested,omitempty"`
 }
 
 type hist19 struct {
@@ -321,7 +327,12 @@ func (w *world19) exec(o hop19) obs19 {
 	case "listsessions":
 		q = reqSpec{method: "GET", path: "/sessions/"}
 	case "putservice":
-		q = reqSpec{method: "PUT", path: "/services/" + escSeg(o.Name), body: spMetadataXML(o.MD.Entity, o.MD.ACS)}
+		q = reqSpec{method: "PUT", path: "/services/" + escSeg(o.Name), body: spMetadataXML("", nil)}
+		if o.IsAgg {
+			q.body = aggregateXML(o.Agg, o.Nested)
+		} else {
+			q.body = spMetadataXML(o.MD.Entity, o.MD.ACS)
+		}
 	case "delservice":
 		q = reqSpec{method: "DELETE", path: "/services/" + escSeg(o.Name)}
 	case "putshortcut":
@@ -391,7 +402,9 @@ func (w *world19) exec(o hop19) obs19 {
 	if ob.Status == 204 {
 		switch o.Kind {
 		case "putservice":
-			w.svcEnt[o.Name] = o.MD.Entity
+			if o.MD != nil {
+				w.svcEnt[o.Name] = o.MD.Entity
+			}
 		case "delservice":
 			delete(w.svcEnt, o.Name)
 		}
@@ -600,7 +613,7 @@ func genHistory(r *rand.Rand, maxLen int, dupOK bool) hist19 {
 			if hasPw[o.User] && r.Intn(3) != 0 {
 				o.Pass = pws[o.User]
 			} else {
-				o.Pass = pick(r, []string{pw1, pw2, pwEmpty, "PW1", "pw1 "})
+				o.Pass = pick(r, []string{pw1, pw2, pwEmpty, "PW1", "pw1 ", pw72, pw73, pw71})
 			}
 		default: // both: the password path decides
 			o.User, o.Pass = pick(r, users19), pick(r, []string{pw1, pw2})
@@ -655,7 +668,7 @@ func genHistory(r *rand.Rand, maxLen int, dupOK bool) hist19 {
 				o.BodyName = sp(pick(r, []string{"alice", "bob", "carol", "", "<absent>", "Alice"}))
 			}
 			if r.Intn(3) != 0 || x == 0 {
-				o.PW = sp(pick(r, []string{pw1, pw1, pw2, pwEmpty}))
+				o.PW = sp(pick(r, []string{pw1, pw1, pw1, pw2, pw2, pwEmpty, pw72, pw73}))
 			}
 		case x < 12:
 			o = hop19{Kind: "deluser", Name: pick(r, users19)}
@@ -670,6 +683,27 @@ func genHistory(r *rand.Rand, maxLen int, dupOK bool) hist19 {
 				m = pick(r, mdFor[id])
 			}
 			o = hop19{Kind: "putservice", Name: id, MD: &m}
+			if r.Intn(4) == 0 { // an aggregate: the first SP entity counts
+				other := pick(r, mdFor[id])
+				var ents []aggEnt
+				switch r.Intn(5) {
+				case 0:
+					ents = []aggEnt{spEnt(m)}
+				case 1:
+					ents = []aggEnt{spEnt(m), spEnt(other)}
+				case 2:
+					ents = []aggEnt{nonSP(), spEnt(m), spEnt(other)}
+				case 3:
+					ents = []aggEnt{nonSP()}
+				default:
+					ents = []aggEnt{spEnt(m), nonSP(), spEnt(other)}
+				}
+				var nested []aggEnt
+				if r.Intn(4) == 0 {
+					nested = []aggEnt{spEnt(other)}
+				}
+				o = putAgg(id, nested, ents...)
+			}
 		case x < 33:
 			o = hop19{Kind: "delservice", Name: pick(r, []string{"a", "b"})}
 		case x < 39:
@@ -739,7 +773,9 @@ func genHistory(r *rand.Rand, maxLen int, dupOK bool) hist19 {
 			delete(pws, o.Name)
 			delete(hasPw, o.Name)
 		case "putservice":
-			svc[o.Name] = *o.MD
+			if o.MD != nil {
+				svc[o.Name] = *o.MD
+			}
 		case "delservice":
 			delete(svc, o.Name)
 		case "putshortcut":
@@ -779,6 +815,22 @@ var hostileNames = []map[string]string{
 	{"alice": "al/ice", "bob": "bob/", "carol": "car%2Fol", "a": "apps/crm", "b": "https://wiki.example.com/saml2/metadata", "x": "go/to", "y": "é/ü", "z": ".."},
 	{"alice": "../alice", "bob": "b.b/.", "carol": "c", "a": "a/", "b": "a", "x": "x/..", "y": "x", "z": "%"},
 	{"alice": "a b+c", "bob": "services/a", "carol": "c/", "a": "users/alice", "b": "b/b/b", "x": ".", "y": "..", "z": "./x"},
+	// names that contain another collection's listing prefix after their start
+	{"alice": "x/services/a", "bob": "to/users/bob", "carol": "c/sessions/", "a": "a/shortcuts/x", "b": "b/users/", "x": "to/users/bob", "y": "x/shortcuts/", "z": "z/services/"},
+	{"alice": "/users/alice", "bob": "/services/a", "carol": "//", "a": "/services/a", "b": "/users/bob/sessions/S0", "x": "/shortcuts/x", "y": "/users/", "z": "/x"},
+}
+
+// withListings lists every collection after every operation that writes to the store
+func withListings(ops []hop19) []hop19 {
+	var out []hop19
+	for _, o := range ops {
+		out = append(out, o)
+		switch o.Kind {
+		case "putuser", "deluser", "putservice", "delservice", "putshortcut", "delshortcut", "login", "delsession", "restart":
+			out = append(out, hop19{Kind: "listusers"}, hop19{Kind: "listservices"}, hop19{Kind: "listshortcuts"}, hop19{Kind: "listsessions"})
+		}
+	}
+	return out
 }
 
 func renameHostile(h hist19, variant int) hist19 {
@@ -809,6 +861,35 @@ func putUser(u string, pw *string, pi int) hop19 {
 	return hop19{Kind: "putuser", Name: u, PW: pw, Prof: &p}
 }
 func putSvc(id string, m mdv) hop19 { return hop19{Kind: "putservice", Name: id, MD: &m} }
+
+const idpOnly = "https://idp-only.example.com/metadata"
+
+func spEnt(m mdv) aggEnt { return aggEnt{Entity: m.Entity, ACS: m.ACS, SP: true} }
+func nonSP() aggEnt      { return aggEnt{Entity: idpOnly} }
+
+// putAgg: PUT /services/{id} with an aggregate; the registered entity is the first SP entity of the top level
+func putAgg(id string, nested []aggEnt, ents ...aggEnt) hop19 {
+	o := hop19{Kind: "putservice", Name: id, IsAgg: true, Agg: ents, Nested: nested}
+	for _, e := range ents {
+		if e.SP {
+			o.MD = &mdv{Entity: e.Entity, ACS: e.ACS}
+			break
+		}
+	}
+	return o
+}
+
+// passwords around bcrypt's 72-byte limit
+var (
+	pw71   = strings.Repeat("0123456789", 7) + "0"
+	pw72   = pw71 + "1"
+	pw73   = pw72 + "x"
+	pw73b  = pw72 + "y"
+	pw200  = strings.Repeat("long-password-", 15)[:200]
+	pwMB72 = pw71[:70] + "é" // 72 bytes, the last rune is two bytes
+	pwMB73 = pw71 + "é"      // 73 bytes: the limit falls inside the rune
+)
+
 func ssoCookie(iss, acs, ck string) hop19 {
 	return hop19{Kind: "sso", Issuer: iss, ACS: acs, Cookie: sp(ck)}
 }
@@ -871,6 +952,49 @@ func directed19() []hist19 {
 	add("registration", putUser("alice", sp(pw1), 0), loginPw("alice", pw1), putSvc("b", md3), hop19{Kind: "putshortcut", Name: "y", SP: e3},
 		hop19{Kind: "putshortcut", Name: "x", SP: unknownSP}, launchCk("y", "S0"), ssoCookie(e3, "", "S0"), launchCk("x", "S0"), launchCk("z", "S0"),
 		hop19{Kind: "delshortcut", Name: "y"}, launchCk("y", "S0"))
+	// EntitiesDescriptor aggregates: exactly the first SP entity of the top level is registered
+	aggTail := []hop19{ssoCookie(e1, "", "S0"), ssoCookie(e2, "", "S0"), ssoCookie(e3, "", "S0"), ssoCookie(idpOnly, "", "S0"),
+		hop19{Kind: "putshortcut", Name: "x", SP: e1}, hop19{Kind: "putshortcut", Name: "y", SP: e2}, launchCk("x", "S0"), launchCk("y", "S0"),
+		hop19{Kind: "listservices"}, hop19{Kind: "restart"}, ssoCookie(e1, "", "S0"), ssoCookie(e2, "", "S0"), launchCk("x", "S0"), launchCk("y", "S0")}
+	aggHead := []hop19{putUser("alice", sp(pw1), 0), loginPw("alice", pw1)}
+	for _, put := range []hop19{
+		putAgg("a", nil, spEnt(md1)),
+		putAgg("a", nil, spEnt(md1), spEnt(md2)),
+		putAgg("a", nil, spEnt(md2), spEnt(md1), spEnt(md3)),
+		putAgg("a", nil, nonSP(), spEnt(md2), spEnt(md1)),
+		putAgg("a", nil, nonSP()),
+		putAgg("a", nil),
+		putAgg("a", []aggEnt{spEnt(md1)}, spEnt(md2)),
+		putAgg("a", []aggEnt{spEnt(md1)}, nonSP()),
+		putAgg("a", nil, spEnt(md3), spEnt(md1)),
+	} {
+		add("aggregate", append(append(append([]hop19{}, aggHead...), put), aggTail...)...)
+		// ... also as a replacement of an existing registration
+		add("aggregate", append(append(append([]hop19{}, aggHead...), putSvc("a", md1b), put), aggTail...)...)
+	}
+	// password length at the bcrypt limit (72 bytes), for create and for update: more than 72 bytes is an
+	// error and changes nothing; bcrypt itself ignores what follows the first 72 bytes when comparing
+	pwTry := func(u string) []hop19 {
+		return []hop19{ssoPw(e1, "", u, pw1), ssoPw(e1, "", u, pw71), ssoPw(e1, "", u, pw72), ssoPw(e1, "", u, pw73),
+			ssoPw(e1, "", u, pw73b), ssoPw(e1, "", u, pwMB72), ssoPw(e1, "", u, pwMB73)}
+	}
+	for _, long := range []string{pw73, pw200, pwMB73} {
+		ops := []hop19{putSvc("a", md1), putUser("alice", sp(long), 0)} // create with a too long password
+		ops = append(ops, pwTry("alice")...)
+		ops = append(ops, hop19{Kind: "getuser", Name: "alice"}, putUser("alice", sp(pw1), 0), putUser("alice", sp(long), 1)) // update
+		ops = append(ops, pwTry("alice")...)
+		ops = append(ops, hop19{Kind: "getuser", Name: "alice"})
+		add("password_length", ops...)
+	}
+	for _, ok := range []string{pw71, pw72, pwMB72} {
+		ops := []hop19{putSvc("a", md1), putUser("bob", sp(ok), 0)}
+		ops = append(ops, pwTry("bob")...)
+		ops = append(ops, putUser("bob", sp(pw200), 1))
+		ops = append(ops, pwTry("bob")...)
+		add("password_length", ops...)
+	}
+	add("password_length", putSvc("a", md1), putUser("alice", sp("ab"), 0), ssoPw(e1, "", "alice", "ab"), ssoPw(e1, "", "alice", "ab\x00ab"),
+		ssoPw(e1, "", "alice", "ab\x00"), ssoPw(e1, "", "alice", "abab"), ssoPw(e1, "", "alice", "a"))
 	// request bodies whose identity disagrees with the URL: the URL decides (user name, shortcut name)
 	named := func(o hop19, bn string) hop19 { o.BodyName = sp(bn); return o }
 	add("body_vs_url", putUser("alice", sp(pw1), 0), putSvc("a", md1), hop19{Kind: "putshortcut", Name: "x", SP: e1},
@@ -954,7 +1078,14 @@ func opTerm(o hop19) string {
 	case "listsessions":
 		return "ListKeys CSessions"
 	case "putservice":
-		return fmt.Sprintf("PutService %s (mkmd %s %s)", emit.Str(o.Name), emit.Str(o.MD.Entity), emit.StrList(o.MD.ACS))
+		if o.IsAgg {
+			items := make([]string, len(o.Agg))
+			for i, e := range o.Agg {
+				items[i] = fmt.Sprintf("(mkmd %s %s, %s)", emit.Str(e.Entity), emit.StrList(e.ACS), emit.Bool(e.SP))
+			}
+			return fmt.Sprintf("PutService %s (MdAggregate %s)", emit.Str(o.Name), emit.List(items))
+		}
+		return fmt.Sprintf("PutService %s (MdSingle (mkmd %s %s))", emit.Str(o.Name), emit.Str(o.MD.Entity), emit.StrList(o.MD.ACS))
 	case "delservice":
 		return "DelService " + emit.Str(o.Name)
 	case "putshortcut":
@@ -1123,6 +1254,8 @@ func runC19(c *Ctx) {
 	for v := 0; v < len(hostileNames); v++ {
 		h := renameHostile(hist19{Ops: hostile, Class: "hostile_names", RestartAt: 10}, v)
 		hs = append(hs, h)
+		hl := renameHostile(hist19{Ops: withListings(hostile), Class: "hostile_names", RestartAt: 30}, v)
+		hs = append(hs, hl)
 	}
 	hs = append(hs, hist19{Ops: hostile, Class: "listings", RestartAt: 10})
 	nHostile := 30
